@@ -105,16 +105,38 @@ func Solve(workDir, name, script string, timeoutS int, seed int, allSolvers bool
 	type ans struct {
 		name, a, out string
 	}
-	ch := make(chan ans, len(solvers))
+	// the race: every solver with the given seed, and the usually fastest one with two further seeds (queries that take
+	// seconds are the ones whose time depends on the seed; a different seed often decides them at once)
+	type racer struct {
+		sp   solverSpec
+		seed int
+		name string
+	}
+	var racers []racer
 	for _, sp := range solvers {
-		sp := sp
+		racers = append(racers, racer{sp, seed, sp.name})
+	}
+	if !allSolvers {
+		for k := 1; k <= 2; k++ {
+			racers = append(racers, racer{solvers[0], seed + k, solvers[0].name})
+		}
+	}
+	ch := make(chan ans, len(racers))
+	for ri, r := range racers {
+		r := r
+		rfile := file
+		if ri >= len(solvers) {
+			// own copy: the solvers are cancelled independently
+			rfile = strings.TrimSuffix(file, ".smt2") + fmt.Sprintf(".s%d.smt2", r.seed)
+			os.WriteFile(rfile, []byte(script), 0o644)
+		}
 		go func() {
-			a, out, _ := runSolver(ctx, sp, file, timeoutS, seed)
-			ch <- ans{sp.name, a, out}
+			a, out, _ := runSolver(ctx, r.sp, rfile, timeoutS, r.seed)
+			ch <- ans{r.name, a, out}
 		}()
 	}
 	var definitive []ans
-	for i := 0; i < len(solvers); i++ {
+	for i := 0; i < len(racers); i++ {
 		x := <-ch
 		res.Answers[x.name] = x.a
 		if x.a == "sat" || x.a == "unsat" {
@@ -261,6 +283,10 @@ func SolveAll(obls []*Obligation, workDir string, timeoutS, seed, workers int, a
 	out := make([]OblOutcome, len(obls))
 	var wg sync.WaitGroup
 	sem := make(chan struct{}, workers)
+	// a function whose body no longer fits its contract (a loop added, a call moved) fails many obligations, most of them by
+	// timeout; after a few undecided ones the rest of that function gets a short timeout: the verdict is already "broken"
+	var mu sync.Mutex
+	undecided := map[string]int{}
 	for i, o := range obls {
 		i, o := i, o
 		wg.Add(1)
@@ -268,6 +294,19 @@ func SolveAll(obls []*Obligation, workDir string, timeoutS, seed, workers int, a
 		go func() {
 			defer wg.Done()
 			defer func() { <-sem }()
+			timeoutS := timeoutS
+			mu.Lock()
+			if undecided[o.Fn] >= 4 && timeoutS > 4 {
+				timeoutS = 4
+			}
+			mu.Unlock()
+			defer func() {
+				if !out[i].OK && out[i].Res.Status != "sat" && out[i].Res.Status != "unsat" {
+					mu.Lock()
+					undecided[o.Fn]++
+					mu.Unlock()
+				}
+			}()
 			extra := []string{o.Reach, not(o.Goal)}
 			script := o.B.Script(extra, false)
 			if o.Expect == "sat" {
